@@ -404,6 +404,34 @@ example : finishedB (run (incAp Nat.add) (world (fun _ => 0) (demoThreads .mmap)
     (run (incAp Nat.add) (world (fun _ => 0) (demoThreads .mmap)) (roundRobin 3 60)).cell (.value, 7) = 21 := by
   decide
 
+/-- `labels(k)` on parent `o`, creating child `c` if the key is absent -/
+def labelsCall (o k c : Nat) : Call (Nat × Nat) :=
+  Call.ofSk MetricWrapperBase_labels (bindL o) (bindV o) (fun _ => (k, c))
+
+theorem labelsCall_good (bk : Backend) (o k c : Nat) :
+    wellLockedCode bk (labelsCall o k c).bl0 (labelsCall o k c).code0 = true ∧ (labelsCall o k c).Respects bk ∧
+    (labelsCall o k c).BlindOk (fun _ => false) := by
+  refine ⟨?_, bind_respects bk o _ rfl rfl, ?_⟩
+  · cases bk
+    · exact call_of_generated .mutex MetricWrapperBase_labels (by simp [skeletonsOf, mutexSet]) _ _ _
+    · exact call_of_generated .mmap MetricWrapperBase_labels (by simp [skeletonsOf, mmapSet]) _ _ _
+  · refine blindOk_ofSk _ _ _ _ _ ?_
+    intro v hv
+    have h : needBlind (flatList MetricWrapperBase_labels) [] = [] := by decide
+    rw [h] at hv; cases hv
+
+/-- non-vacuity of `one_shared_child`: three threads call `labels(5)` on parent 3 with three different fresh children; under
+the round-robin schedule all three stores are logged and every one of them left child 101 (the first creator's) in the table -/
+example : GoodThreads .mutex (fun _ => false) [[labelsCall 3 5 101], [labelsCall 3 5 102], [labelsCall 3 5 103]] := by
+  intro calls hc c hcc
+  simp only [List.mem_cons, List.not_mem_nil, or_false] at hc
+  rcases hc with rfl | rfl | rfl <;>
+    (simp only [List.mem_cons, List.not_mem_nil, or_false] at hcc; subst hcc; exact labelsCall_good .mutex 3 5 _)
+example :
+    (writesOf ((run ensure (world (fun _ => [])
+        [[labelsCall 3 5 101], [labelsCall 3 5 102], [labelsCall 3 5 103]]) (roundRobin 3 30)).log (.metrics, 3))).map
+      (fun e => e.2.2.lookup 5) = [some 101, some 101, some 101] := by decide
+
 /-! ## The model is not a tidied version of the code: the measured mutations flip `WellLocked`, and the semantics shows the
 failure each one causes -/
 
